@@ -198,7 +198,11 @@ func geom2Shp(g geom.Geom) (shp.Shape, error) {
 	case geom.Polygon:
 		return geom2polygon(g.(geom.Polygon)), nil
 	case *geom.Bounds:
-		return geom2polygon(g.(*geom.Bounds).Polygons()[0]), nil
+		pgs := g.(*geom.Bounds).Polygons()
+		if len(pgs) == 0 {
+			return &shp.Null{}, nil // a box without any point
+		}
+		return geom2polygon(pgs[0]), nil
 	case geom.LineString:
 		return geom2polyLine(geom.MultiLineString{g.(geom.LineString)}), nil
 	case geom.MultiLineString:
